@@ -73,6 +73,7 @@ def gen_cases(tier, seed):
         cases.append({"shells": shells, "points": pts, "dm": dm, "transform": None, "alpha": 0.3, "orders": orders, "deriv_type": "direct" if i % 2 else "general",
                       "classes": classes + ["pt:many(%d)" % npts, "T:none", dcls, "alpha:generic", "backend:" + ("direct" if i % 2 else "general")] + ["o:%d%d%d" % tuple(o) for o in orders],
                       "cost": npts * ntot * ntot})
+    cases += bases.argrep_variants("C06", seed, tier, cases, 6, ok=lambda c: "shells" in c and c.get("kind") in (None, "whole", "kernel", "perm", "real"))  # constructor arguments in other in-memory representations
     return cases
 
 
